@@ -1,5 +1,5 @@
 From Coq Require Import Extraction ExtrOcamlBasic ZArith List String.
 From LP Require Import Num C13_Model C14_Model.
 Extraction Language OCaml.
-Extraction "C14_m.ml" parse_method random_point mc_volume brute_force integrate_miser vstate0 vegas_init vegas integrate_mc integrate_mc_throwing
+Extraction "C14_m.ml" parse_method random_point mc_volume brute_force integrate_miser vstate0 vegas_init vegas integrate_mc integrate_mc_throwing sample_uniforms run_event
   integrate_2d integrate_3d integrate_3d_spherical Z.of_nat Z.to_nat.
